@@ -20,10 +20,16 @@ import (
 
 // Switch: when task Task has executed Step instrumented statements, hand the
 // processor to task To (if it can run).
+//
+// With Sync > 0 the switch point is not a statement number but "right after the
+// statement holding the task's Sync-th sync / atomic call" (resolved while the
+// task runs: no earlier counting pass is needed, so the first use of package-level
+// state can itself be scheduled).
 type Switch struct {
 	Task int
 	Step uint64
 	To   int
+	Sync uint64
 }
 
 type taskState struct {
@@ -34,6 +40,10 @@ type taskState struct {
 	done     bool
 	switches []Switch // sorted by Step
 	next     int      // index into switches
+	syncSw   []Switch // switches given by sync-operation index
+	ps       uint64   // sync / atomic sites hit
+	armStep  uint64   // statement number at which an armed sync switch is taken (0 = none)
+	armTo    int
 }
 
 var (
@@ -84,6 +94,12 @@ func stepSync() {
 	if recordPW && len(t.psSteps) < 4096 {
 		t.psSteps = append(t.psSteps, t.steps+1)
 	}
+	t.ps++
+	for _, s := range t.syncSw {
+		if s.Sync == t.ps && t.armStep == 0 {
+			t.armStep, t.armTo = t.steps+2, s.To // the statement after this one
+		}
+	}
 	step(true)
 }
 
@@ -97,6 +113,16 @@ func step(write bool) {
 		if recordPW && len(t.pwSteps) < 4096 {
 			t.pwSteps = append(t.pwSteps, t.steps)
 		}
+	}
+	if t.armStep != 0 && t.steps >= t.armStep {
+		to := t.armTo
+		t.armStep = 0
+		if depth > 0 {
+			pending = int32(to)
+			return
+		}
+		yieldTo(int32(to))
+		return
 	}
 	if t.next < len(t.switches) && t.steps >= t.switches[t.next].Step {
 		to := t.switches[t.next].To
@@ -194,6 +220,10 @@ func setup(n int, sw []Switch, rec bool) {
 	}
 	for _, s := range sw {
 		if s.Task >= 0 && s.Task < n {
+			if s.Sync > 0 {
+				tasks[s.Task].syncSw = append(tasks[s.Task].syncSw, s)
+				continue
+			}
 			tasks[s.Task].switches = append(tasks[s.Task].switches, s)
 		}
 	}
